@@ -364,6 +364,22 @@ func init() {
 			return out
 		},
 		Gen: func(t *T) {
+			// directed: a JSON body that carries the field with its zero value beats the declared default; a body
+			// without the field leaves the default; the same for a form / query value that is the zero value
+			for _, d := range []struct{ kind, def, zero, other string }{
+				{"int8", "7", "0", "5"}, {"int", "42", "0", "-1"}, {"uint16", "9", "0", "12"}, {"bool", "true", "false", "true"},
+				{"string", "dflt", "", "x"}, {"float64", "1.5", "0", "3.25"}, {"int64", "3", "0", "9223372036854775807"}} {
+				ty := d.kind + "|0|0|" + d.def + "|json,j0,0,0"
+				for _, v := range []string{d.zero, d.other} {
+					t.Do(In{S(ty), S(""), S(""), S(""), S(""), S(""), S("j0," + v), S("1")}, true)
+				}
+				t.Do(In{S(ty), S(""), S(""), S(""), S(""), S(""), S("unrelated,1"), S("1")}, true)
+				ty2 := d.kind + "|0|0|" + d.def + "|query,a,0,0|json,j0,0,0"
+				t.Do(In{S(ty2), S(""), S(""), S(""), S(""), S(""), S("j0," + d.zero), S("1")}, true)
+				if d.kind != "string" {
+					t.Do(In{S(ty2), S(""), S(""), S("a," + d.zero), S(""), S(""), S(""), S("0")}, true)
+				}
+			}
 			for i := 0; i < t.Scale(3000, 80000); i++ {
 				ty, parts := c15gen(t)
 				in := In{S(ty)}
